@@ -884,4 +884,46 @@ theorem fromLut_anf (l : Lut) (hl : l.t.size = tableSize l.n) (h32 : l.n ≤ 32)
     exact (cubeOf_value T m (by have := b1 T hT; omega) (by omega)).symm
   exact ⟨by rw [c1, key], n1⟩
 
+
+/-! ## expressions nesting any number of `^` and `!` -/
+
+inductive EExpr where
+  | leaf (s : Esop)
+  | xor (a b : EExpr)
+  | not (a : EExpr)
+
+def EExpr.eval : EExpr → Option Esop
+  | .leaf s => some s
+  | .xor a b => match a.eval, b.eval with
+    | some x, some y => Esop.xor x y
+    | _, _ => none
+  | .not a => a.eval.map Esop.not
+
+def EExpr.den : EExpr → Nat → Bool
+  | .leaf s, m => s.value m
+  | .xor a b, m => a.den m != b.den m
+  | .not a, m => !a.den m
+
+/-- the value of the result of an expression of any depth is the XOR / complement expression of
+the values of its leaves, whatever cubes (repeated or not) the leaves were built from -/
+theorem expr_value (e : EExpr) (r : Esop) (h : e.eval = some r) : ∀ m, r.value m = e.den m := by
+  induction e generalizing r with
+  | leaf s => intro m; simp only [EExpr.eval, Option.some.injEq] at h; subst h; rfl
+  | xor a b iha ihb =>
+    simp only [EExpr.eval] at h
+    split at h
+    · rename_i x y hx hy
+      intro m
+      rw [(xor_spec x y r h m).1, iha x hx m, ihb y hy m]; rfl
+    · cases h
+  | not a iha =>
+    simp only [EExpr.eval, Option.map_eq_some_iff] at h
+    obtain ⟨x, hx, rfl⟩ := h
+    intro m
+    rw [not_spec, iha x hx m]; rfl
+
+example : ((EExpr.not (.xor (.leaf ⟨2, [⟨1, 0⟩, ⟨1, 0⟩]⟩) (.leaf ⟨2, [⟨0, 0⟩, ⟨3, 0⟩]⟩))).eval).isSome = true := by
+  simp [EExpr.eval, Esop.xor]
+
+
 end VoluteModel.Props.C15
